@@ -34,6 +34,9 @@ def make_reference(rng, n_genes=1, coding_p=0.6, sec_p=0.15, nf_p=0.15,
             g += l
             if i < n_ex - 1:
                 g += rng.randint(*intron_len)
+        if sum(e - s for s, e in exons) < 30:      # degenerate transcripts (< 30 nt) are not generated
+            exons[-1] = (exons[-1][0], exons[-1][1] + 30)
+            g += 30
         specs.append((gi, chrom, g, rng.choice(strands), exons))
         per_chrom[chrom].append(gi)
     pos = {}
